@@ -205,4 +205,11 @@ def nodeMisledChar (sco noRec : Bool) (ops : List NOp) (k j : Nat) (isAnon : Boo
   | some (i0, quiet, e) => id == i0 && quiet && (e.on isAnon).1 != (e.on isAnon).2
   | none => false
 
+/-- (last word of the handlers, level the id ends at) on the anonymous / named topic, for the id in flight when
+the restarted node stays quiet about it -/
+def nodeDeviation (sco noRec : Bool) (ops : List NOp) (k j : Nat) (isAnon : Bool) : Nat × Nat :=
+  match nodeCrashEnd sco noRec ops k j with
+  | some (_, _, e) => e.on isAnon
+  | none => (0, 0)
+
 end Kap.C08
